@@ -1,9 +1,15 @@
 package main
 
 import (
+	"verif/checks/c01"
+	"verif/checks/c02"
+	"verif/checks/c07"
 	"verif/checks/c11"
 )
 
 func init() {
+	register("C02", "exploration", c02.Run)
+	register("C07", "exploration", c07.Run)
+	register("C01", "exploration", c01.Run)
 	register("C11", "exploration", c11.Run)
 }
